@@ -150,8 +150,45 @@ def on_the_wire(ctx, b, cfg, results, dist, nontriv):
     out = [json.loads(l) for l in so.split("\n") if l]
     bad = []
     okc = 0
+    # the statement (Model/DeferSpec.lean) on what arrived: one line per case for the Lean driver
+    lean_lines = []
     for (c, r), h in zip(cases, out):
+        body = h.get("body") or ""
+        seq = []
+        if c["transport"] == "multipart":
+            parts, _, _ = wire.parse_multipart(body)
+            for pi, part in enumerate(parts):
+                if pi == 0:
+                    seq.append({"path": "", "label": "", "data": part.get("data"), "errors": part.get("errors") or [], "hasNext": part.get("hasNext")})
+                else:
+                    items = part.get("incremental") or []
+                    for ii, it in enumerate(items):
+                        seq.append({"path": it.get("path"), "label": it.get("label") or "", "data": it.get("data"), "errors": it.get("errors") or [],
+                                    "hasNext": bool(part.get("hasNext")) if ii == len(items) - 1 else True})
+        else:
+            nexts, _, _, _ = wire.parse_sse(body)
+            for ev in nexts:
+                seq.append({"path": ev.get("path"), "label": ev.get("label") or "", "data": ev.get("data"), "errors": ev.get("errors") or [], "hasNext": ev.get("hasNext")})
+        for q in seq:
+            q["path"] = q["path"] if isinstance(q.get("path"), str) else "/".join(str(x) for x in (q.get("path") or []))
+            q["errors"] = [{"path": e["path"] if isinstance(e.get("path"), str) else "/".join(str(x) for x in (e.get("path") or [])), "message": e["message"]} for e in q["errors"]]
+        rr = dict(r)
+        rr["wire"] = [_wire(q) for q in seq]
+        if r.get("plain") and r["plain"].get("payloads"):
+            rr["plainWire"] = _wire(r["plain"]["payloads"][0])
+        rr.pop("plain", None)
+        lean_lines.append(json.dumps(rr))
+    try:
+        verdicts = ctx.driver("c13", [c01.schema_of(b)] + lean_lines)
+    except RuntimeError:
+        verdicts = [None] * len(cases)
+    for ((c, r), h), vd in zip(zip(cases, out), verdicts):
         why = []
+        lean_clauses = []
+        if vd and vd.startswith("{") and r.get("plain"):
+            lean_clauses = json.loads(vd).get("clauses") or []
+            if lean_clauses == ["no-wire"]:
+                lean_clauses = []
         P = r["payloads"]
         want_groups = sorted(_canon_inc(p) for p in P[1:])
         body = h.get("body") or ""
@@ -191,7 +228,15 @@ def on_the_wire(ctx, b, cfg, results, dist, nontriv):
                 if sorted(_canon_inc(x) for x in nexts[1:]) != want_groups:
                     why.append("incremental payloads differ from the executor's")
         nontriv.add(c["id"])
+        if lean_clauses and not why:
+            # only the statement's own clauses: same reporting (and known-finding shapes) as at the executor
+            kinds = sorted(set(x.split(":")[0] for x in lean_clauses))
+            bad.append({"kind": "spec-violation", "config": cfg, "transport": c["transport"], "why": [], "spec_clauses": lean_clauses,
+                        "case": c, "body": body[:6000], "executor_payloads": P, "shape": {"clauses": ",".join(kinds)},
+                        "replay": "echo '<case json>' | <generated server %s> -mode http" % cfg})
+            continue
         if why:
+            why += lean_clauses
             bad.append({"kind": "wire", "config": cfg, "transport": c["transport"], "why": why, "case": c,
                         "status": h.get("status"), "body": body[:6000], "executor_payloads": P,
                         "shape": {"wire": c["transport"], "why": why[0].split(" is ")[0][:40]},
